@@ -93,7 +93,7 @@ func init() {
 			"errors.NewDocumentError(fs.NewFile(..), errors.Format(code, args..)) + SetIndex, then Line(), SourceSubString(), String(), Error(), kit.ConvertError, compared with refrender " +
 			"(uniform line ends: exact line number; line with an ordinary first non-blank byte: exact left-trimmed text, or a legal <= 200 byte truncation for lines beyond 200 bytes; position at/after the first non-blank: caret column; " +
 			"every case: no panic, 1 <= line <= 1 + newline bytes before the position, String()==Error(), ConvertError keeps position/file/code/message). " +
-			"Non-trivial = content with at least one blank or newline byte (exhaustive: distinct by construction; random: hashed by content and position). Other parts state their own rule in their counters.",
+			"Non-trivial = content with at least one blank or newline byte (exhaustive: distinct by construction; random: hashed by content and position). Other parts state their own rule in their counters. Parse positions also for plain JSON with user comments at line ends under LF / CRLF / CR (accepted as it stands, a planted ? keeps its byte) and for union shortcuts cut after a bar.",
 		Assumptions: []string{
 			"a line terminator byte belongs to the line it ends; SP and TAB are the blanks that are trimmed",
 			"an empty file has no position inside it: rendering at index 0 of an empty file is executed but not judged",
